@@ -390,10 +390,13 @@ class Runner:
         if app is not None and app in ex._app_arrays:
             for addr in sorted(ex._app_arrays[app]._arrays):
                 arrs.append("%d=[%s]" % (addr, ",".join(_opt(v) for v in ex._app_arrays[app]._arrays[addr])))
-        return "um=%s | used=%s | ql=%s | held=%d | inbox=%d | leaked=%d | regs=%s | arrays=%s" % (
+        stale = sorted(["c:%d:%d" % k for k, v in ex._epr_create_requests.items() if v]
+                       + ["r:%d:%d" % k for k, v in ex._epr_recv_requests.items() if v])
+        return "um=%s | used=%s | ql=%s | held=%d | inbox=%d | leaked=%d | stale=%s | stuck=%d | regs=%s | arrays=%s" % (
             "none" if um is None else "[" + ",".join(_opt(p) for p in um) + "]",
             ",".join(str(p) for p in sorted(ex._used_physical_qubit_addresses)),
             ",".join(ql), len(nd.virtQubits), sum(len(q) for q in nd.qubit_recv_epr.values()), leaked,
+            ",".join(stale), 1 if ex._pending_epr_responses else 0,
             ",".join(regs), ";".join(arrs))
 
     def registers_defined(self, node):
